@@ -1,0 +1,8 @@
+//go:build verif
+
+package parse
+
+// Read-only accessors for the verification harness (/verif). Compiled only with -tags verif.
+
+func VerifWhitespaceTable() [256]bool { return whitespaceTable }
+func VerifNewlineTable() [256]bool    { return newlineTable }
